@@ -104,7 +104,10 @@ def pair_step(rmax, ngt, est_labels, ids):
     labels = [CAR, BUS] if est_labels == "two" else [CAR]
     prev = _frame(0, rmax, labels, ids)
     cur = _frame(1, rmax, labels, ids)
-    cl = CLEAR([[r.res for r in prev], [r.res for r in cur]], ngt, [CAR], MatchingMode.CENTERDISTANCE, [thr])
+    history = [[r.res for r in prev], [r.res for r in cur]]
+    before = [list(fr) for fr in history]
+    cl = CLEAR(history, ngt, [CAR], MatchingMode.CENTERDISTANCE, [thr])
+    cl_again = CLEAR(history, ngt, [CAR], MatchingMode.CENTERDISTANCE, [thr])  # the same history scored twice
     tp, fp, sw, score = spec_pair(cur, prev, thr)
     parts = {
         "every_result_tp_or_fp": L.close(cl.tp + cl.fp, _considered(cur), 0),
@@ -113,6 +116,11 @@ def pair_step(rmax, ngt, est_labels, ids):
         "id_switch_count": L.close(cl.id_switch, sw, 0),
         "tp_score_sum": L.close(cl.tp_matching_score, score, 1e-9),
         "predict_num": cl.objects_results_num == len(cur),
+        "history_untouched": len(history) == 2 and all(len(a) == len(b) and all(x is y for x, y in zip(a, b))
+                                                       for a, b in zip(history, before)),
+        "second_scoring_equal": L.And(L.close(cl.tp, cl_again.tp, 0), L.close(cl.fp, cl_again.fp, 0),
+                                      L.close(cl.id_switch, cl_again.id_switch, 0),
+                                      L.close(cl.tp_matching_score, cl_again.tp_matching_score, 1e-9)),
     }
     parts["mota_formula"] = L.close(cl.mota, _mota(tp, fp, sw, ngt), 1e-9)
     if symx.is_sym(cl.tp) or cl.tp != 0:
